@@ -340,7 +340,7 @@ func execute(c Case) (*observation, *hx.Failure, bool) {
 			return nil
 		}
 		if err := proc.AddRule(&engine.Rule{Name: ruleName(i), KindMatch: []string{kindMatch(spec.Kind)}, ScopeMatch: []string{"c10"},
-			Priority: spec.Prio, Action: action}); err != nil {
+			Priority: rulePriority[spec.Prio], Action: action}); err != nil {
 			return nil, hx.Failf("harness:add-rule", "AddRule(%s): %v", ruleName(i), err), false
 		}
 	}
@@ -1202,6 +1202,10 @@ func TestExhaustive(t *testing.T) {
 // The generator draws self-contained rule records (rapid can delete a whole
 // rule or a whole add while shrinking) and resolves the references between
 // them (which deeper kinds have a rule) afterwards.
+// rulePriority maps the rule priority index 0..maxPrio of a case to the number given to the engine: order preserving, with
+// numbers of different digit counts (a comparison of the printed numbers would order 10 before 2 and 100 before 25)
+var rulePriority = [maxPrio + 1]int{0, 2, 9, 10, 25, 100}
+
 type addDraw struct {
 	Prio int // priority, or index into the unused priorities if the rule spreads
 	Trig int // < 3: a deeper kind which has a rule (if any); 3: a kind without a rule
